@@ -220,6 +220,31 @@ def extract_rules(repo):
     for var, atom in JT_VARIANTS.items():
         if not re.search(r'"%s"\s*=\s*%s\s*,' % (re.escape(atom), var), modsrc):
             raise TranslateError("planner/mod.rs: join type atom %s is no longer the node %s" % (atom, var))
+    # `ApplyType` (Model/PlanSem.lean): an apply node is only ever built with the join types
+    # inner / left_outer / semi / anti — by the binder ...
+    import glob
+    for path in sorted(glob.glob(os.path.join(repo, "src/binder/*.rs"))):
+        bsrc = strip_comments(open(path).read())
+        for m in re.finditer(r"Node::Apply\(\[\s*([A-Za-z_0-9]+)\s*,", bsrc):
+            nm = m.group(1)
+            d = re.search(r"let\s+%s\s*=\s*self\.egraph\.add\(Node::([A-Za-z]+)\)" % re.escape(nm), bsrc)
+            if not d or JT_VARIANTS.get(d.group(1)) not in ("inner", "left_outer", "semi", "anti"):
+                raise TranslateError("%s: an apply node is built with join type `%s` (%s): outside ApplyType" % (
+                    os.path.basename(path), nm, d.group(1) if d else "unknown"))
+    # ... and by the rules themselves: on a right-hand side the type of an apply is one of those
+    # atoms, or the variable type of an apply of the left-hand side
+    def apply_types(ast, acc):
+        if isinstance(ast, list):
+            if ast and ast[0] == "apply" and len(ast) == 4:
+                acc.append(ast[1])
+            for a in ast[1:]:
+                apply_types(a, acc)
+        return acc
+    for r in rules:
+        lt = apply_types(r["lhs_ast"], [])
+        for t in apply_types(r["rhs_ast"], []):
+            if not ((isinstance(t, str) and t in ("inner", "left_outer", "semi", "anti")) or t in lt):
+                raise TranslateError("%s.rs:%d: rule %s builds an apply of type %s: outside ApplyType" % (r["file"], r["line"], r["name"], t))
     # stages
     opt = strip_comments(open(os.path.join(repo, "src/planner/optimizer.rs")).read())
     stages = {}
@@ -433,8 +458,28 @@ PLAN_SIG = {
     "hashagg": (["EL", "AL", "P"], "P"), "sortagg": (["EL", "AL", "P"], "P"), "agg": (["AL", "P"], "P"),
     "empty": (["P"], "P"), "window": (["WL", "P"], "P"), "scan": (["TBL", "CL", "B"], "P"),
     "and": (["B", "B"], "B"), "or": (["B", "B"], "B"), "not": (["B"], "B"), "=": (["E", "E"], "B"),
+    # correlated sub-plans (sort DP: a plan whose rows depend on the outer row; Model/PlanSem.lean DRel)
+    "apply": (["JT", "P", "DP"], "P"), "exists": (["DP"], "B"), "in": (["E", "DP"], "B"),
 }
-PLAN_TY = {"P": "Rel", "B": "BExpr", "E": "VExpr", "EL": "List VExpr", "KL": "List Key", "AL": "List Agg",
+# operators that may occur inside a correlated sub-plan, and their pointwise versions
+D_OPS = {"filter": "dfilter", "proj": "dproj", "hashagg": "dhashagg", "agg": "dagg"}
+# per-rule translation state: variables used both as a plan and as a correlated sub-plan (emitted
+# as `lift p` at the correlated positions), and variables an applier computes (emitted as terms)
+LIFTED = set()
+SUBST = {}
+CUR_SORTS = {}
+
+
+def sig_of(h, want):
+    if h not in PLAN_SIG:
+        raise NotX("operator %s" % h)
+    if want == "DP":
+        if h not in D_OPS:
+            raise NotX("operator %s inside a correlated sub-plan" % h)
+        a, _ = PLAN_SIG[h]
+        return ["DP" if x == "P" else x for x in a], "DP"
+    return PLAN_SIG[h]
+PLAN_TY = {"DP": "DRel", "P": "Rel", "B": "BExpr", "E": "VExpr", "EL": "List VExpr", "KL": "List Key", "AL": "List Agg",
            "JT": "JoinType", "LIM": "Option Nat", "OFF": "Nat", "TBL": "Rel", "CL": "List VExpr"}
 JT_ATOMS = {"inner": ".inner", "left_outer": ".leftOuter", "right_outer": ".rightOuter", "full_outer": ".fullOuter",
             "semi": ".semi", "anti": ".anti"}
@@ -444,7 +489,7 @@ JT_VARIANTS = {"Inner": "inner", "LeftOuter": "left_outer", "RightOuter": "right
                "Semi": "semi", "Anti": "anti"}
 # rules whose two sides enumerate the same rows in a different order (bag equality is claimed)
 PERM_RULES = {"inner-join-swap", "inner-hash-join-swap", "inner-join-right-rotate", "inner-join-right-rotate-1",
-              "pushdown-filter-hashagg"}
+              "pushdown-filter-hashagg", "pushdown-apply-group-agg", "pushdown-apply-scalar-agg"}
 
 
 def pvar(v):
@@ -455,7 +500,14 @@ def plan_infer(ast, want, sorts):
     """checks `ast` against sort `want`, recording variable sorts"""
     if isinstance(ast, str):
         if ast.startswith("?"):
+            if ast in SUBST:
+                return
             if sorts.setdefault(ast, want) != want:
+                if {sorts[ast], want} == {"P", "DP"}:
+                    # a plan used as the (uncorrelated) right side of an apply: `lift`
+                    sorts[ast] = "P"
+                    LIFTED.add(ast)
+                    return
                 # TBL/CL/P etc must agree
                 raise NotX("variable %s used at sorts %s and %s" % (ast, sorts[ast], want))
             return
@@ -477,9 +529,7 @@ def plan_infer(ast, want, sorts):
         if want in ("KL", "AL", "WL") and not args:
             return
         raise NotX("list literal at sort %s" % want)
-    if h not in PLAN_SIG:
-        raise NotX("operator %s" % h)
-    argsorts, res = PLAN_SIG[h]
+    argsorts, res = sig_of(h, want)
     if res != want or len(argsorts) != len(args):
         raise NotX("operator %s/%d at sort %s" % (h, len(args), want))
     for a, so in zip(args, argsorts):
@@ -489,6 +539,10 @@ def plan_infer(ast, want, sorts):
 def plan_emit(ast, want):
     if isinstance(ast, str):
         if ast.startswith("?"):
+            if ast in SUBST:
+                return SUBST[ast]
+            if want == "DP" and CUR_SORTS.get(ast) == "P":
+                return "(lift %s)" % pvar(ast)
             return pvar(ast)
         if want == "B":
             return "bTrue" if ast == "true" else "bFalse"
@@ -503,8 +557,14 @@ def plan_emit(ast, want):
         if want in ("EL", "CL"):
             return "[%s]" % ", ".join(plan_emit(a, "E") for a in args)
         return "[]"
-    argsorts, _ = PLAN_SIG[h]
+    argsorts, _ = sig_of(h, want)
     xs = [plan_emit(a, so) for a, so in zip(args, argsorts)]
+    if want == "DP":
+        return "(%s %s)" % (D_OPS[h], " ".join(xs))
+    if h == "exists":
+        return "(dexists %s)" % xs[0]
+    if h == "in":
+        return "(din %s %s)" % (xs[0], xs[1])
     if h == "window":
         return "(window %s)" % xs[1]
     if h == "scan":
@@ -554,12 +614,43 @@ def wf_hyps(ast, want, out):
             # every leaf of the condition reads only what the inputs provide (well-formedness is
             # syntactic: it holds of each sub-expression, not just of the composite's value)
             for leaf, lso in cond_leaves(a, "B"):
-                out.append("ReadsWithin %s %s" % (pvar(leaf), scope))
+                if lso in ("B", "E"):
+                    out.append("ReadsWithin %s %s" % (pvar(leaf), scope))
         if so == "EL" and scope:
             out.append("(∀ e ∈ %s, ReadsWithin e %s)" % (plan_emit(a, "EL"), scope))
         if so == "KL" and scope and not (isinstance(a, list) and a == ["list"]):
             out.append("(∀ k ∈ %s, ReadsWithin k.e %s)" % (plan_emit(a, "KL"), scope))
-        wf_hyps(a, so, out)
+        if so != "DP":
+            wf_hyps(a, so, out)
+
+
+def dp_hyps(ast, out, child=None):
+    """well-formedness around correlated sub-plans: the two sides of an apply (a filter's input
+    and the subquery of an `exists` / `in` in its condition) own disjoint columns; the outer
+    operand of `in` does not read the subquery's columns (scoping); a variable apply type is one
+    of the types an apply is ever built with"""
+    if isinstance(ast, str):
+        return
+    h, args = ast[0], ast[1:]
+    if h == "apply" and len(args) == 3:
+        t, l, r = args
+        if isinstance(t, str) and t.startswith("?"):
+            out.append("ApplyType %s" % pvar(t))
+        out.append("(∀ x, %s x = true → (%s).owned x = false)" % (owned_of(l), plan_emit(r, "DP")))
+    if h == "filter" and len(args) == 2 and child is None:
+        for a in args[:1]:
+            dp_hyps(a, out, child=args[1])
+        dp_hyps(args[1], out)
+        return
+    if h in ("exists", "in"):
+        sub = args[-1]
+        if child is not None:
+            out.append("(∀ x, %s x = true → (%s).owned x = false)" % (owned_of(child), plan_emit(sub, "DP")))
+        if h == "in":
+            for leaf, lso in cond_leaves(args[0], "E"):
+                out.append("Indep %s (%s).owned" % (pvar(leaf), plan_emit(sub, "DP")))
+    for a in args:
+        dp_hyps(a, out, child=child if h in ("and", "or", "not") else None)
 
 
 def find_hashagg_keys(ast, aggvar):
@@ -597,23 +688,55 @@ def translate_plan_rule(r):
                 return a
             return [a[0]] + [repl(x) for x in a[1:]]
         rhs = repl(rhs)
+    elif r["applier"] in ("apply_column0", "extract_key"):
+        pass    # the computed variable is substituted below, once the sorts of the lhs are known
     elif r["applier"]:
         raise NotX("applier %s" % r["applier"])
-    sorts = {}
-    plan_infer(lhs, "P", sorts)
+    LIFTED.clear()
+    SUBST.clear()
+    CUR_SORTS.clear()
+    sorts = CUR_SORTS
+    root = "P"
+    try:
+        plan_infer(lhs, "P", sorts)
+    except NotX:
+        # an expression-level rule over subqueries (`in`): both sides are predicates of the outer row
+        sorts.clear()
+        LIFTED.clear()
+        root = "B"
+        plan_infer(lhs, "B", sorts)
     lvars = list(sorts)
-    plan_infer(rhs, "P", sorts)
+    if r["applier"] == "apply_column0":
+        # ?column0 := first column of ?subquery's schema
+        if sorts.get("?subquery") not in ("DP", "P"):
+            raise NotX("apply_column0 without ?subquery")
+        SUBST["?column0"] = "(col0 %s)" % plan_emit("?subquery", "DP")
+    if r["applier"] == "extract_key":
+        # ?new_keys := schema of ?left (++ ?keys)
+        if sorts.get("?left") != "P":
+            raise NotX("extract_key without ?left")
+        SUBST["?new_keys"] = "(%s.cols ++ %s)" % (pvar("?left"), pvar("?keys")) if "?keys" in sorts else "%s.cols" % pvar("?left")
+    plan_infer(rhs, root, sorts)
     for v in sorts:
         if v not in lvars and v not in extra_vars:
             raise NotX("rhs introduces %s" % v)
+    justified = set()
     hyps = []
-    wf_hyps(lhs, "P", hyps)
+    wf_hyps(lhs, root, hyps)
+    for v, so in sorts.items():
+        if so == "DP":
+            hyps.append("%s.Extends" % pvar(v))
+    dp_hyps(lhs, hyps)
     for c in r["conds"]:
         fn, args = c["fn"], c["args"]
         if fn == "not_depend_on":
             e, pl = args
-            if sorts.get(pl) == "P" and sorts.get(e) in ("B", "E"):
+            if sorts.get(pl) in ("P", "DP") and sorts.get(e) in ("B", "E"):
                 hyps.append("Indep %s %s.owned" % (pvar(e), pvar(pl)))
+            elif sorts.get(pl) == "P" and e in LIFTED:
+                justified.add(e)    # the sub-plan does not read the outer row: `lift`
+            elif sorts.get(pl) == "P" and sorts.get(e) == "DP":
+                raise NotX("not_depend_on(%s, %s) on a sub-plan that stays correlated" % (e, pl))
             elif sorts.get(pl) == "AL" and sorts.get(e) == "B":
                 keys = find_hashagg_keys(lhs, pl)
                 if keys is None:
@@ -630,6 +753,15 @@ def translate_plan_rule(r):
                 hyps.append("(∀ e ∈ %s, ReadsWithin e %s.owned)" % (pvar(e), pvar(pl)))
             else:
                 raise NotX("all_depend_on at sort %s" % sorts.get(e))
+        elif fn == "depend_on":
+            e, pl = args
+            if sorts.get(pl) in ("P", "DP") and sorts.get(e) in ("B", "E"):
+                hyps.append("¬ Indep %s %s.owned" % (pvar(e), pvar(pl)))
+            else:
+                raise NotX("depend_on(%s:%s, %s:%s)" % (e, sorts.get(e), pl, sorts.get(pl)))
+        elif fn == "is_not_list":
+            if sorts.get(args[0]) not in ("DP", "P"):
+                raise NotX("is_not_list at sort %s" % sorts.get(args[0]))
         elif fn == "schema_is_eq":
             hyps.append("%s = %s.cols" % (pvar(args[0]), pvar(args[1])))
         elif fn == "is_orderby":
@@ -655,8 +787,14 @@ def translate_plan_rule(r):
             hyps.append("(%s)" % " ∨ ".join(alts) if alts else "False")
         else:
             raise NotX("condition %s" % fn)
+    for v in LIFTED:
+        if v not in justified:
+            raise NotX("%s is used as a plan and as a correlated sub-plan without not_depend_on" % v)
     allvars = list(sorts.items())
     binders = " ".join("(%s : %s)" % (pvar(v), PLAN_TY[so]) for v, so in allvars)
+    if root == "B":
+        stmt = "∀ %s, %s∀ ρ : Env, %s ρ = %s ρ" % (binders, "".join(h + " → " for h in hyps), plan_emit(lhs, "B"), plan_emit(rhs, "B"))
+        return stmt, "BEq"
     concl = "RelPerm" if r["name"] in PERM_RULES else "RelEq"
     stmt = "∀ %s, %s%s %s %s" % (binders, "".join(h + " → " for h in hyps), concl, plan_emit(lhs, "P"), plan_emit(rhs, "P"))
     return stmt, concl
